@@ -56,3 +56,5 @@ def run(repo: Repo, rep: Report, tier: str) -> None:
                 fn = "unpack_typed_dict" if r.entry.family == "typeddict" else "unpack_named_tuple"
                 rep.violation("R03.4", f"{M_UNPACK}::{fn}", inst, "generated helper body differs from the documented behaviour", actual=got, reference=want)
     rep.floor("R03.4", 3)
+    from ..core import regget
+    regget.report(repo, rep, "R03.6", {"first-match-in-order", "raise-otherwise", "real-type"})
